@@ -80,6 +80,16 @@ def rw_zero_sample(rng, spec):
 def rw_null_systematic(rng, spec):
     s = copy.deepcopy(spec)
     c = rng.choice(s['channels']); sm = rng.choice(c['samples'])
+    # a third of the time the null systematic carries the name of an existing systematic of the *other* interpolated type (one parameter,
+    # one constraint term — already there): still no effect on anything, and the live modifier of that name must stay live
+    have = {(m['name'], m['type']) for cc in s['channels'] for x in cc['samples'] for m in x['modifiers'] if m['type'] in ('normsys', 'histosys')}
+    mine = {m['name'] for m in sm['modifiers']}
+    cand = [(n, t) for n, t in sorted(have) if n not in mine and (n, 'normsys' if t == 'histosys' else 'histosys') not in have]
+    if cand and rng.random() < 0.34:
+        n, t = rng.choice(cand)
+        if t == 'normsys': sm['modifiers'].append({'name': n, 'type': 'histosys', 'data': {'lo_data': list(sm['data']), 'hi_data': list(sm['data'])}})
+        else: sm['modifiers'].append({'name': n, 'type': 'normsys', 'data': {'lo': 1.0, 'hi': 1.0}})
+        return s, {}, 1.0
     if rng.random() < 0.5:
         sm['modifiers'].append({'name': 'nullsys', 'type': 'histosys', 'data': {'lo_data': list(sm['data']), 'hi_data': list(sm['data'])}})
     else:
